@@ -191,9 +191,15 @@ def write_shards(mod, terms):
     prem_fn = getattr(mod, "PREMISES_FN", "premises")
     scopes = getattr(mod, "OPEN_SCOPES", ["Z_scope"])
     os.makedirs(GEN, exist_ok=True)
-    for fn in os.listdir(GEN):
-        if fn.startswith(f"cases_{mod.ID}_"):
-            os.remove(os.path.join(GEN, fn))
+    tag = f"cases_{mod.ID}_{os.getpid()}_"
+    now = time.time()
+    for fn in os.listdir(GEN):  # own leftovers, and anybody's leftovers older than two hours
+        fp = os.path.join(GEN, fn)
+        try:
+            if fn.startswith(tag) or (fn.startswith("cases_") and now - os.path.getmtime(fp) > 7200):
+                os.remove(fp)
+        except OSError:
+            pass
     shards, cur, cur_idx, size = [], [], [], 0
 
     def flush():
@@ -201,7 +207,7 @@ def write_shards(mod, terms):
         if not cur:
             return
         k = len(shards)
-        path = os.path.join(GEN, f"cases_{mod.ID}_{k}.v")
+        path = os.path.join(GEN, f"{tag}{k}.v")
         with open(path, "w", encoding="utf-8") as f:
             f.write(f"From Cassis Require Import {mod.CORR_IMPORTS}.\n")
             for s in scopes:
@@ -259,8 +265,10 @@ def run_shards(shards, jobs=8, timeout=600):
             r["mismatch_idx"] = [idxs[i] for i in local]
             r["premises"] = int(m.group(3))
         results.append(r)
-    for r in results:  # keep the tree small
+    for r in results:  # keep the tree small; the .v of a shard that agreed is of no further use
         base = r["path"][:-2]
+        if not r["error"] and not r["mismatch_idx"] and os.path.exists(r["path"]):
+            os.remove(r["path"])
         for ext in (".vo", ".vok", ".vos", ".glob", ".aux"):
             for cand in (base + ext, os.path.join(os.path.dirname(base), "." + os.path.basename(base) + ext)):
                 if os.path.exists(cand):
